@@ -683,6 +683,39 @@ func runWholeInput(p *Program, r *RuleResult) {
 			r.note("entry point without first-party callers: %s (its reader parameter is the caller's input)", fnName(w.fn))
 		}
 	}
+	// reads that can hand back only part of what was asked for
+	for _, fn := range p.SrcFuncs {
+		if fn.Pkg == nil || fn.Pkg.Pkg.Path() != parserPkg {
+			continue
+		}
+		ord := 0
+		for _, c := range p.callsIn(fn) {
+			call, ok := c.(*ssa.Call)
+			if !ok {
+				continue
+			}
+			sc := call.Common().StaticCallee()
+			if sc == nil || sc.Pkg == nil || sc.Pkg.Pkg.Path() != "bufio" {
+				continue
+			}
+			switch sc.Name() {
+			case "ReadLine":
+				ord++
+				construct := fmt.Sprintf("partial-read#%d:ReadLine", ord)
+				used := false
+				for _, u := range *call.Referrers() {
+					if ex, ok := u.(*ssa.Extract); ok && ex.Index == 1 && ex.Referrers() != nil && len(*ex.Referrers()) > 0 {
+						used = true
+					}
+				}
+				if used {
+					r.add(fnName(fn), construct, Holds, p.instrPos(call), "the isPrefix result is looked at")
+				} else {
+					r.add(fnName(fn), construct, Violated, p.instrPos(call), "ReadLine hands back at most one buffer (4096 bytes) of a longer line and says so in isPrefix, which is discarded here: the rest of the line is then scanned as program text")
+				}
+			}
+		}
+	}
 	r.count("input sources judged", judged)
 }
 
